@@ -48,5 +48,5 @@ MANIFEST = {
     "engine": "sched",
     "technique": "property-based testing with controlled schedules: generated wide DAGs, gated node functions hold in-flight nodes open, bound and thread-placement predicates over the event trace",
     "level_text": "Exploration. Because pooled nodes block on harness gates until the scheduler's own wait call releases them, an over-submission cannot be missed by timing: the extra node is still in flight when it is counted. Placement is checked on every node entry in both flavours.",
-    "level_note": "Trusted: interposed ThreadPoolExecutor subclass counts submitted-and-unfinished futures; thread identity from threading.get_ident().",
+    "level_note": "Thorough tier additionally enumerates a complete small scope (every DAG on 4 ordered nodes x the property's own dimension - priorities / sequential subsets / failing node - with the whole completion-order tree of each). Trusted: interposed ThreadPoolExecutor subclass counts submitted-and-unfinished futures; thread identity from threading.get_ident().",
 }
